@@ -45,6 +45,29 @@ fn tags_in(s: &str, out: &mut BTreeSet<String>) {
 }
 
 /// what the public getters of `book` show right now: tags of all text reachable from it
+/// For a lazily loaded handle: the eager load of the same bytes plus the fingerprint of every sheet's
+/// raw part, so that a still-raw sheet can be identified whatever its current name or position.
+#[derive(Clone)]
+pub struct Twin {
+    eager: umya::Spreadsheet,
+    prints: Vec<u64>,
+}
+
+impl Twin {
+    fn new(bytes: &[u8]) -> Option<Twin> {
+        let eager = world::load_mem(bytes, true).ok()?;
+        let lazy = world::load_mem(bytes, false).ok()?;
+        let prints = lazy.get_sheet_collection_no_check().iter().map(|w| umya::verif_hooks::raw_fingerprint(w).unwrap_or(0)).collect();
+        Some(Twin { eager, prints })
+    }
+    /// the eager counterpart of a still-raw sheet
+    fn of(&self, raw: &umya::Worksheet) -> Option<(usize, &umya::Worksheet)> {
+        let fp = umya::verif_hooks::raw_fingerprint(raw)?;
+        let j = self.prints.iter().position(|p| *p == fp)?;
+        self.eager.get_sheet_collection_no_check().get(j).map(|w| (j, w))
+    }
+}
+
 fn sheet_tags(ws: &umya::Worksheet, tags: &mut BTreeSet<String>) {
     for c in ws.get_cell_collection() {
         tags_in(&c.get_value(), tags);
@@ -57,7 +80,7 @@ fn sheet_tags(ws: &umya::Worksheet, tags: &mut BTreeSet<String>) {
 
 /// `twin`: for a lazily loaded handle, the eager load of the same bytes. It answers what a still-raw
 /// sheet (matched by name) contains — cells, comments — without touching the handle under test.
-fn visible_tags(book: &umya::Spreadsheet, twin: Option<&umya::Spreadsheet>) -> (BTreeSet<String>, BTreeMap<(usize, String), String>, usize) {
+fn visible_tags(book: &umya::Spreadsheet, twin: Option<&Twin>) -> (BTreeSet<String>, BTreeMap<(usize, String), String>, usize) {
     let mut tags = BTreeSet::new();
     let mut cells = BTreeMap::new();
     let mut raw = 0;
@@ -84,21 +107,31 @@ fn visible_tags(book: &umya::Spreadsheet, twin: Option<&umya::Spreadsheet>) -> (
                 }
             }
             // and everything else it carries (comments), from the eager twin of the loaded file
-            if let Some(t) = twin {
-                if let Some(tw) = t.get_sheet_collection_no_check().iter().find(|x| x.get_name() == ws.get_name()) {
-                    sheet_tags(tw, &mut tags);
+            if let Some((j, tw)) = twin.and_then(|t| t.of(ws)) {
+                sheet_tags(tw, &mut tags);
+                // hyperlinks, validations, header/footer ... of the raw sheet
+                let mut sj = crate::annot::annot_dump(&twin.unwrap().eager)["sheets"][j].clone();
+                if let Some(o) = sj.as_object_mut() {
+                    // the name is the handle's business (a raw sheet can be renamed)
+                    o.remove("name");
+                    // defined names live in the workbook part and are shown by the handle's own getters
+                    o.remove("defined_names");
                 }
+                tags_in(&sj.to_string(), &mut tags);
             }
         }
         tags_in(ws.get_name(), &mut tags);
     }
+    // everything else the getters show (hyperlinks, defined names, validations, header/footer, ...)
+    // (a panic in here propagates: the caller treats it as an edit-semantics matter and ends the history)
+    tags_in(&crate::annot::annot_dump(book).to_string(), &mut tags);
     (tags, cells, raw)
 }
 
 /// Tags of the text an operation is meant to delete, read through the getters before it runs. Only the
 /// unambiguous part of the semantics is used: overwriting a cell, removing a cell, a band of rows or
 /// columns, or a sheet deletes the text of the cells it targets.
-fn doomed_tags(b: &umya::Spreadsheet, twin: Option<&umya::Spreadsheet>, op: &Op) -> BTreeSet<String> {
+fn doomed_tags(b: &umya::Spreadsheet, twin: Option<&Twin>, op: &Op) -> BTreeSet<String> {
     let mut out = doomed_in_sheet(b, op);
     if out.is_empty() {
         return out;
@@ -116,7 +149,7 @@ fn doomed_tags(b: &umya::Spreadsheet, twin: Option<&umya::Spreadsheet>, op: &Op)
         }
         if umya::verif_hooks::is_deserialized(ws) {
             sheet_tags(ws, &mut elsewhere);
-        } else if let Some(tw) = twin.and_then(|t| t.get_sheet_collection_no_check().iter().find(|x| x.get_name() == ws.get_name())) {
+        } else if let Some((_, tw)) = twin.and_then(|t| t.of(ws)) {
             sheet_tags(tw, &mut elsewhere);
         } else {
             // a raw sheet we cannot look into: be conservative, nothing is doomed
@@ -213,7 +246,7 @@ pub fn execute(case: &Value, _scratch: &str) -> Outcome {
     let steps: Vec<Step> = serde_json::from_value(case["steps"].clone()).unwrap_or_default();
     let nsheets = case["sheets"].as_u64().unwrap_or(1).max(1);
     let mut handles: Vec<Option<umya::Spreadsheet>> = Vec::new();
-    let mut twins: Vec<Option<umya::Spreadsheet>> = Vec::new();
+    let mut twins: Vec<Option<Twin>> = Vec::new();
     // tags an operation on that handle deleted (overwrite, remove cell/row/column/sheet): history oracle
     let mut deleted: Vec<BTreeSet<String>> = vec![BTreeSet::new()];
     // tags contained in the file a handle was loaded from (empty for handles not loaded from a file)
@@ -232,6 +265,7 @@ pub fn execute(case: &Value, _scratch: &str) -> Outcome {
     let mut saved_after_edit_on_shared = false;
     let mut clones_alive = 0;
     let mut samples: Vec<Value> = Vec::new();
+    let mut ended_by_foreign_panic = false;
 
     let r = guarded(|| {
         for (k, st) in steps.iter().enumerate() {
@@ -243,8 +277,19 @@ pub fn execute(case: &Value, _scratch: &str) -> Outcome {
                         // what the operation is meant to delete, read from the getters before it runs
                         // (only where the sheet is already materialised: a raw sheet is judged by the
                         // file-vs-getters oracle alone)
-                        let doomed = doomed_tags(b, twins[hi].as_ref(), op);
-                        world::apply(b, op);
+                        // panics of getters or of the edit itself are edit-semantics matters (C07-C10),
+                        // not C12's: the history ends there
+                        let doomed = match guarded(|| doomed_tags(b, twins[hi].as_ref(), op)) {
+                            Ok(d) => d,
+                            Err(_) => {
+                                ended_by_foreign_panic = true;
+                                break;
+                            }
+                        };
+                        if guarded(|| world::apply(b, op)).is_err() {
+                            ended_by_foreign_panic = true;
+                            break;
+                        }
                         deleted[hi].extend(doomed);
                         sig.push('o');
                     }
@@ -311,10 +356,21 @@ pub fn execute(case: &Value, _scratch: &str) -> Outcome {
                     if handles[i].is_none() {
                         continue;
                     }
-                    let (expected, cells, raw) = visible_tags(handles[i].as_ref().unwrap(), twins[i].as_ref());
-                    let bytes = match world::save_mem(handles[i].as_ref().unwrap(), light_flag) {
-                        Ok(b) => b,
-                        Err(e) => {
+                    let (expected, cells, raw) = match guarded(|| visible_tags(handles[i].as_ref().unwrap(), twins[i].as_ref())) {
+                        Ok(v) => v,
+                        Err(_) => {
+                            ended_by_foreign_panic = true;
+                            break;
+                        }
+                    };
+                    let bytes = match guarded(|| world::save_mem(handles[i].as_ref().unwrap(), light_flag)) {
+                        Err(p) => {
+                            // a workbook whose own getters work must be saveable
+                            out.violate(Verdict::new("C12", "C12:save-panics", &[], format!("step {}: save of handle {} panicked: {}", k, i, p.chars().take(200).collect::<String>())));
+                            break;
+                        }
+                        Ok(Ok(b)) => b,
+                        Ok(Err(e)) => {
                             out.violate(Verdict::new("C12", "C12:save-failed", &[], format!("step {}: save of handle {} failed: {}", k, i, e)));
                             continue;
                         }
@@ -421,7 +477,7 @@ pub fn execute(case: &Value, _scratch: &str) -> Outcome {
                             match world::load_mem(&bytes, !*lazy) {
                                 Ok(nb) => {
                                     handles.push(Some(nb));
-                                    twins.push(if *lazy { world::load_mem(&bytes, true).ok() } else { None });
+                                    twins.push(if *lazy { Twin::new(&bytes) } else { None });
                                     let d = deleted[i].clone();
                                     deleted.push(d);
                                     loaded.push(file_tags.clone());
@@ -437,6 +493,9 @@ pub fn execute(case: &Value, _scratch: &str) -> Outcome {
     });
     if let Err(p) = r {
         out.violate(Verdict::new("C12", "C12:panic", &[], format!("history panicked: {}", p.chars().take(200).collect::<String>())));
+    }
+    if ended_by_foreign_panic {
+        out.probe("history_ended_by_panic_in_edit_or_getter");
     }
     out.step("ops", steps.len() as u64);
     out.step("saves", saves);
@@ -479,7 +538,11 @@ pub fn cases(run_seed: u64, tier: &str, _scratch: &str) -> Vec<Value> {
                 0 => {
                     let sheet = wl.usize(sheets);
                     let cell = world::gen_cell(&mut wl, ncells);
-                    let op = match wl.usize(10) {
+                    let op = match wl.usize(14) {
+                        10 => Op::Hyperlink { sheet, cell, url: format!("https://example.com/{}", tag), location: false, tooltip: String::new() },
+                        11 => Op::DefinedName { sheet, name: format!("n_{}", k), address: format!("$A${}", 1 + wl.below(9)) },
+                        12 => Op::NewSheet { name: format!("{}N", tag) },
+                        13 => Op::RenameSheet { sheet, name: format!("{}R", tag) },
                         0 => Op::SetRich { sheet, cell, parts: vec![tag.clone(), world::gen_text(&mut wl, alpha, 2)] },
                         1 => Op::Comment { sheet, cell, author: "au".into(), text: format!("{}{}", tag, world::gen_text(&mut wl, alpha, 2)) },
                         8 => Op::CommentRich { sheet, cell, author: "au".into(), parts: vec!["au:".into(), format!("{}{}", tag, world::gen_text(&mut wl, alpha, 2)), format!(" ~h{}s{}~x", h, 5000 + k)] },
